@@ -432,8 +432,7 @@ func (w *vfWorld) build() error {
 	w.dirsim = newSimDirectory(w)
 	w.vipsim = newSimVIP(w)
 	w.mail = &simMail{w: w}
-	vfhook.CheckLDAPUserPassword = w.dirsim.checkPassword
-	vfhook.CheckLDAPConnection = w.dirsim.checkConnection
+	vfhook.LDAPDialFn = w.dirsim.dial
 	vfhook.GetLDAPUserGroups = w.dirsim.getGroups
 	vfhook.GetLDAPUserAttributes = w.dirsim.getAttributes
 	vfhook.EventPublishCert = nil
